@@ -278,5 +278,5 @@ def replay(case, ctx):
     if case.get('formula'):
         emb = ctx.embedding
         return [Violation.from_json(v) for v in _formulas((emb[0], emb[2]))['viols']]
-    a = (case['leverage'], case['side'], case['averaged'], case['where'], case['dist'], tuple(case['stop']) if case['stop'] else None, case['kind'], case['mode'], case['fast'], tuple(case['embedding']))
+    a = (case['leverage'], case['side'], case['averaged'], case['where'], case['dist'], tuple(case['stop']) if case['stop'] else None, case['kind'], case['mode'], case['fast'], tuple(case.get('embedding') or ctx.embedding))
     return [Violation.from_json(v) for v in _run(a)['viols']]
